@@ -32,6 +32,15 @@ CHECKS = {
         technique='Lean 4 invariant over operation histories on a hand model; line-protocol correspondence with real SpotExchange; exact cash-account oracle',
         ref='4 (C04)',
         note='One traded symbol in the theorems; position=base holds only when no sell executes on a closed position (C04-F1).'),
+    'C05': dict(
+        text='Proof over the accounts model: executing or cancelling an order that is already final (or unknown) leaves the '
+             'ENTIRE state unchanged (balances, positions, margin tables, registries, trade records), in spot and futures; one '
+             'execute/cancel call moves every status along active -> executed|canceled at most once and never back (transitive '
+             'over histories); after update_active_orders the registry of a symbol is exactly its listed non-final orders; an '
+             'executed order is appended exactly once to the trade under construction. Tie: step-by-step correspondence incl. '
+             'duplicate calls and cancel-all; engine sessions traced for double finalisation, registry and trade membership.',
+        technique='Lean 4 theorems over the accounts model (state equality for no-ops, status order, registry filter); correspondence; traced engine sessions',
+        ref='4 (C05)'),
     'C07': dict(
         text='Proof: the GENERATED generate_candle_from_one_minutes is the aggregation (window start, first open, last close, '
              'max high, min low, summed volume) for every non-empty list; the GENERATED gap normalisation only moves the open '
